@@ -1,10 +1,10 @@
 package main
 
 import (
-	"go/types"
 	"fmt"
 	"go/ast"
 	"go/token"
+	"go/types"
 	"sort"
 	"strings"
 )
@@ -214,7 +214,9 @@ func checkC04(p *Prog, r *Report) {
 		target string
 		guard  func(f *Func, facts FactSet) (bool, string)
 	}
-	hasStateEq := func(facts FactSet, c string, val bool) bool { return p.hasFieldEq(facts, "Agent.connectionState", c, val) }
+	hasStateEq := func(facts FactSet, c string, val bool) bool {
+		return p.hasFieldEq(facts, "Agent.connectionState", c, val)
+	}
 	ccFn := p.Fn("Agent.connectivityChecks")
 	// roles of the tick's captured locals, by what defines them
 	checkingTimeoutObj := p.localByDef(ccFn, func(rhs ast.Expr) bool {
